@@ -10,18 +10,36 @@ From Cffi Require Import C03.Mem C04.Spec C04.Model C04.Proofs.
 Import ListNotations.
 Open Scope Z_scope.
 
+(* "ffi.cast(T, x) succeeds": for every source kind the property lists (valid_src) and every
+   target, the result is COk — the model has explicit error outcomes (CErr) for everything else *)
+Theorem C04_cast_succeeds : forall T s, valid_src s -> wf_cty T -> exists z, int_of_cast T s = COk z.
+Proof. exact cast_succeeds. Qed.
+Print Assumptions C04_cast_succeeds.
+
 (* int(ffi.cast(T, x)) = x truncated toward zero (code point / address), reduced modulo
-   2^(8 sizeof T) into T's signed or unsigned range *)
+   2^(8 sizeof T) into T's signed or unsigned range.  Reading for the character types: cffi's
+   `char`, char16_t, char32_t are unsigned code units (int(ffi.cast("char", -1)) == 255, as
+   cffi documents and its own tests assert); wchar_t has the platform's signedness. *)
 Theorem C04_cast_exact : forall T s, valid_src s -> wf_cty T -> ckind T <> KBool ->
-  int_of_cast T s = reduce (tsigned T) (8 * Z.of_nat (csize T)) (src_value s).
+  int_of_cast T s = COk (reduce (tsigned T) (8 * Z.of_nat (csize T)) (src_value s)).
 Proof. exact cast_exact. Qed.
 Print Assumptions C04_cast_exact.
 
 (* _Bool: 0/1 by non-zeroness of x itself (0.5 gives 1 although it truncates to 0) *)
 Theorem C04_cast_bool : forall T s, valid_src s -> (1 <= csize T <= 8)%nat -> ckind T = KBool ->
-  int_of_cast T s = if src_nonzero s then 1 else 0.
+  int_of_cast T s = COk (if src_nonzero s then 1 else 0).
 Proof. exact cast_bool. Qed.
 Print Assumptions C04_cast_bool.
+
+(* the sources outside the property's list: str/bytes of another length and objects that are not
+   numbers raise TypeError; infinities OverflowError and NaN ValueError (except into _Bool) *)
+Theorem C04_cast_unlisted : forall T,
+  int_of_cast T SOther = CErr CTypeError /\
+  (forall n, int_of_cast T (SBytesLen n) = CErr CTypeError) /\
+  (forall n, int_of_cast T (SStrLen n) = CErr CTypeError) /\
+  (ckind T <> KBool -> int_of_cast T SFloatInf = CErr COverflowError /\ int_of_cast T SFloatNan = CErr CValueError).
+Proof. exact cast_unlisted. Qed.
+Print Assumptions C04_cast_unlisted.
 
 (* the specification is canonical: in range, congruent, and unique with these two properties *)
 Theorem C04_reduce_canonical : forall sg bits z, 0 < bits ->
@@ -37,13 +55,16 @@ Print Assumptions C04_reduce_canonical.
 (* values already in T's range are unchanged *)
 Theorem C04_cast_in_range_id : forall T s, valid_src s -> wf_cty T -> ckind T <> KBool ->
   in_range_bits (tsigned T) (8 * Z.of_nat (csize T)) (src_value s) ->
-  int_of_cast T s = src_value s.
+  int_of_cast T s = COk (src_value s).
 Proof. exact cast_in_range_id. Qed.
 Print Assumptions C04_cast_in_range_id.
 
-(* pointer -> intptr_t / uintptr_t -> pointer yields the same address *)
-Theorem C04_ptr_roundtrip : forall (sg : bool) a, 0 <= a < 2 ^ 64 ->
-  cast_int_to_ptr (int_of_cast (mk_cty (if sg then KSigned else KUnsigned) 8) (SPtr a)) = a.
+(* pointer -> intptr_t / uintptr_t -> pointer yields the same address, for pointers of any size
+   psize (8 here) converted through the signed or unsigned integer type of that size *)
+Theorem C04_ptr_roundtrip : forall (sg : bool) (psize : nat) a,
+  (1 <= psize <= 8)%nat -> 0 <= a < 2 ^ (8 * Z.of_nat psize) ->
+  exists z, int_of_cast (mk_cty (if sg then KSigned else KUnsigned) psize) (SPtr a) = COk z /\
+            cast_int_to_ptr psize z = a.
 Proof. exact ptr_roundtrip. Qed.
 Print Assumptions C04_ptr_roundtrip.
 
@@ -51,14 +72,17 @@ Print Assumptions C04_ptr_roundtrip.
 Example C04_ex_wf : wf_cty (mk_cty KSigned 2) /\ wf_cty (mk_cty (KChar true) 4) /\ wf_cty (mk_cty (KChar false) 1).
 Proof. unfold wf_cty; cbn; repeat split; try lia; try discriminate; intros; try lia;
        match goal with H : _ = _ |- _ => try (inversion H; fail); try lia end. Qed.
-Example C04_ex_wrap : int_of_cast (mk_cty KSigned 2) (SInt 40000) = -25536 /\
-                      int_of_cast (mk_cty KUnsigned 1) (SInt (-1)) = 255 /\
-                      int_of_cast (mk_cty KUnsigned 8) (SInt (2 ^ 100 + 5)) = 5.
+Example C04_ex_wrap : int_of_cast (mk_cty KSigned 2) (SInt 40000) = COk (-25536) /\
+                      int_of_cast (mk_cty KUnsigned 1) (SInt (-1)) = COk 255 /\
+                      int_of_cast (mk_cty KUnsigned 8) (SInt (2 ^ 100 + 5)) = COk 5.
 Proof. vm_compute. repeat split. Qed.
-Example C04_ex_float : int_of_cast (mk_cty KSigned 4) (SFloat (-7) (-1)) = -3 /\      (* -3.5 -> -3 *)
-                       int_of_cast (mk_cty KUnsigned 4) (SFloat (-3) (-1)) = 4294967295 /\  (* -1.5 -> -1 -> 2^32-1 *)
-                       int_of_cast (mk_cty KBool 1) (SFloat 1 (-1)) = 1.             (* 0.5 -> true *)
+Example C04_ex_float : int_of_cast (mk_cty KSigned 4) (SFloat (-7) (-1)) = COk (-3) /\      (* -3.5 -> -3 *)
+                       int_of_cast (mk_cty KUnsigned 4) (SFloat (-3) (-1)) = COk 4294967295 /\  (* -1.5 -> -1 -> 2^32-1 *)
+                       int_of_cast (mk_cty KBool 1) (SFloat 1 (-1)) = COk 1.             (* 0.5 -> true *)
 Proof. vm_compute. repeat split. Qed.
-Example C04_ex_ptr : cast_int_to_ptr (int_of_cast (mk_cty KSigned 8) (SPtr (2 ^ 64 - 16))) = 2 ^ 64 - 16 /\
-                     int_of_cast (mk_cty KSigned 8) (SPtr (2 ^ 64 - 16)) = -16.
+Example C04_ex_ptr : int_of_cast (mk_cty KSigned 8) (SPtr (2 ^ 64 - 16)) = COk (-16) /\
+                     cast_int_to_ptr 8 (-16) = 2 ^ 64 - 16.
+Proof. vm_compute. split; reflexivity. Qed.
+Example C04_ex_errors : int_of_cast (mk_cty KSigned 4) (SStrLen 2) = CErr CTypeError /\
+                        int_of_cast (mk_cty KBool 1) SFloatNan = COk 1.
 Proof. vm_compute. split; reflexivity. Qed.
